@@ -228,5 +228,6 @@ pub fn cfg_case(monitor: &str, cfg: &crate::cfg::Cfg, how: crate::drive::How) ->
         .set("owned", how.owned)
         .set("wrap", how.wrap)
         .set("probe", how.probe)
+        .set("reconf", how.reconf)
         .set("cfg", cfg.to_json())
 }
